@@ -222,6 +222,11 @@ func TestMergeHistoriesRapid(t *testing.T) {
 			}
 			return id
 		}
+		type heldSnap struct {
+			d     *ring.Desc
+			canon string
+		}
+		var snaps []heldSnap
 		var pool []*ring.Desc // every change ever returned by a merge
 		steps := rapid.IntRange(1, vx.Pick(20, 30)).Draw(rt, "steps")
 		var hist []string
@@ -282,9 +287,25 @@ func TestMergeHistoriesRapid(t *testing.T) {
 			if _, err := alt.Merge(model.CloneDesc(inc), localCAS); err != nil {
 				rt.Fatalf("merge error: %v", err)
 			}
+			// a snapshot handed out before the merge (what a ring client, a watcher or an in-flight CAS holds:
+			// the library's own Clone, which shares what it may share) still reads the same afterwards
+			snap := recv.Clone().(*ring.Desc)
+			snapCanon := model.CanonDesc(snap)
 			ch, err := recv.Merge(model.CloneDesc(inc), localCAS)
 			if err != nil {
 				rt.Fatalf("merge error: %v", err)
+			}
+			if got := model.CanonDesc(snap); got != snapCanon {
+				rt.Fatalf("a snapshot taken before the merge changed under its holder:\n before = %s\n after  = %s\n inc    = %s (localCAS=%v)", snapCanon, got, model.CanonDesc(inc), localCAS)
+			}
+			snaps = append(snaps, heldSnap{snap, snapCanon})
+			if len(snaps) > 4 {
+				snaps = snaps[1:]
+			}
+			for _, hs := range snaps {
+				if got := model.CanonDesc(hs.d); got != hs.canon {
+					rt.Fatalf("a snapshot taken %d merges ago changed under its holder:\n before = %s\n after  = %s", len(snaps), hs.canon, got)
+				}
 			}
 			stripTs := func(d *ring.Desc) string {
 				if !localCAS {
